@@ -213,6 +213,54 @@ def run(ck: core.Check):
         ck.count(None)
     ck.cov["set_order_correspondence_cases"] = len(dcases) * 5
     ck.cov["set_order_correspondence_mismatches"] = dm
+    # ---- tie H (2b): histories. `Front.runHist` over the statement list extracted from _public.py (the object of
+    # history_independent / history_deterministic) runs r1, r2, r1 over ONE name store under five families of set
+    # orders (the order changes from step to step); the real spox.build runs the same sequence on one set of Vars.
+    hreqs, hmeta = [], []
+    for j in range(0, len(dcases) - 1, 2):
+        prog, r1 = dcases[j]
+        r2 = dcases[j + 1][1]
+        seq = [r for r in (r1, r2, r1) if c03.is_modelled(r)]
+        if len(seq) < 2:
+            continue
+        for fam in range(5):
+            hreqs.append({"objs": lf.to_objs(prog), "store": lf.preset_store(prog),
+                          "hist": [{"inputs": r["inputs"], "outputs": r["outputs"], "drop": r["drop"], "pi": (fam + 2 * i) % 5}
+                                   for i, r in enumerate(seq)]})
+        hmeta.append((prog, seq))
+    try:
+        houts = ck.driver().ask_many("C03", hreqs)
+    except Exception as e:  # noqa: BLE001
+        ck.broken("correspondence", "C03 driver (histories under set orders)", str(e))
+        houts = []
+    hm = hsteps = hfailed = 0
+    for j, (prog, seq) in enumerate(hmeta):
+        group = houts[5 * j: 5 * j + 5]
+        if not group:
+            break
+        try:
+            env = lf.realize(prog)
+            gots = [lf.run_build(env, r) for r in seq]
+            names_after = [getattr(env.get(i), "_name", None) for i in range(prog["n"])]
+        except Exception as e:  # noqa: BLE001
+            ck.broken("correspondence", "history not runnable with the public API", f"{type(e).__name__}: {e}")
+            continue
+        hsteps += len(seq)
+        hfailed += sum(1 for g in gots if g[0] != "ok")
+        for m in group:
+            rs = m.get("results") if isinstance(m, dict) else None
+            ok = (isinstance(rs, list) and len(rs) == len(seq)
+                  and all(c03.agrees(r_, g_, q_) for r_, g_, q_ in zip(rs, gots, seq))
+                  and m.get("names") == names_after)
+            if not ok:
+                hm += 1
+                if hm <= 2:
+                    ck.broken("correspondence", "C12 history model (Front.runHist, statements of build) under a family of set orders vs the real sequence of builds",
+                              f"objs={lf.to_objs(prog)} steps={seq} model={m} "
+                              f"real={[(g[0] if g[0] == 'ok' else g[1]) for g in gots]} names={names_after}")
+        ck.count(None)
+    ck.cov["history_correspondence"] = {"histories": len(hmeta), "set_order_families": 5, "steps": hsteps,
+                                        "failed_steps": hfailed, "mismatches": hm}
 
     lap("set_orders")
     # ---- oracle: histories, in this process (which has a long history of its own by now)
